@@ -3,7 +3,11 @@ package main
 import (
 	. "vh/lib"
 	"vh/lts"
+	"vh/reghist"
 	"vh/transports"
 )
 
-func main() { Main(map[string]func(Val) Val{"C03_lts": lts.Run, "C03_transports": transports.Run}) }
+func main() {
+	Main(map[string]func(Val) Val{"C03_lts": lts.Run, "C03_transports": transports.Run,
+		"C03_reg": reghist.History}) // registry histories with the per-stream end vector (shared with cmd/c05)
+}
